@@ -188,6 +188,25 @@ def c20_text(format_spec=None, s="v"):
     return {"violates": bool(bad), "detail": bad}
 
 
+def c20_text_grouped(format_spec=None, want=""):
+    from flow.record import GroupedRecord, RecordDescriptor
+    from flow.record.adapter.text import TextWriter
+
+    A = RecordDescriptor("c20/a", [("varint", "n"), ("string", "s")])
+    B = RecordDescriptor("c20/b", [("string", "s"), ("varint", "k")])
+    g = GroupedRecord("c20/grp", [A(n=42, s="one", _generated=GEN), B(s="two", k=7, _generated=GEN)])
+    fp = io.BytesIO()
+    try:
+        w = TextWriter(fp, format_spec=format_spec)
+        w.write(g)
+        data = fp.getvalue()
+        w.fp = None
+        bad = None if data == want.encode() else f"text output {data!r:.200}, expected {want.encode()!r:.200}"
+    except Exception as e:
+        bad = f"raised {type(e).__name__}: {e}"
+    return {"violates": bool(bad), "detail": bad}
+
+
 def c20_text_unset(format_spec, setv=None, rx=".*"):
     import re
 
@@ -292,4 +311,4 @@ def c20_sweep(seed=0, n=120):
     return {"violates": False, "cases": cases}
 
 
-CALLS = {"c20_text_unset": c20_text_unset, "c20_csv_grouped": c20_csv_grouped, "c20_csv": c20_csv, "c20_csv_read": c20_csv_read, "c20_line": c20_line, "c20_text": c20_text, "c20_total": c20_total, "c20_sweep": c20_sweep}
+CALLS = {"c20_text_grouped": c20_text_grouped, "c20_text_unset": c20_text_unset, "c20_csv_grouped": c20_csv_grouped, "c20_csv": c20_csv, "c20_csv_read": c20_csv_read, "c20_line": c20_line, "c20_text": c20_text, "c20_total": c20_total, "c20_sweep": c20_sweep}
